@@ -39,6 +39,9 @@ func (a *rot) Gen(r *hx.Rng, n int, _ string, emit func(string)) {
 		if r.Chance(1, 12) {
 			max = r.Range(1, 40)
 		}
+		if r.Chance(1, 40) {
+			max = 0 // outside the property's quantifier (MaxSize >= 1) but accepted by the API: every non-empty file rotates
+		}
 		backups := hx.Pick(r, []int{0, 1, 2, 5, 0, 1, 2, 5, 3})
 		effBackups := backups
 		var opts []string
@@ -124,5 +127,19 @@ func (a *rot) Gen(r *hx.Rng, n int, _ string, emit func(string)) {
 			}
 			emitted++
 		}
+	}
+}
+
+// rotdef is the same endpoint with one fixed history: the limits that New takes from DefaultMaxSize/DefaultMaxBackups
+// are exercised at their boundary (a pre-existing file one byte short of the default MaxSize).
+type rotdef struct{ rot }
+
+func (a *rotdef) Gen(_ *hx.Rng, _ int, _ string, emit func(string)) {
+	n := strconv.Itoa(rotationDefaultMaxSize() - 1)
+	for _, l := range []string{
+		"reset B2,P 0:" + n, "w 1", "w 1", "obs",
+		"reset P 0:" + n + ",1:3", "w 0", "w 2", "close", "w 1",
+	} {
+		emit(l)
 	}
 }
